@@ -2,6 +2,7 @@
 # step keys: test, kind (rapid|plain|fuzz), quick=(checks_per_shard, shards), thorough=(...), race, timeout, env, tier
 
 PLAN = {
+    "C01": [dict(test="TestC01", quick=(2500, 16), thorough=(60000, 16), timeout_thorough=7200)],
     "C06": [
         dict(test="TestC06Exhaustive", kind="plain", quick=(0, 1), thorough=(0, 1)),
         dict(test="TestC06Random", quick=(15000, 4), thorough=(300000, 8)),
